@@ -42,6 +42,13 @@ def gen(seed):
         opt['shuffle_seed'] = sseed
     if rng.random() < 0.2:
         opt['repeat'] = 2
+    if rng.random() < 0.15:
+        # deprecated positional filters behind a '--': whatever the runner adds to the command
+        # line of its children must not end up among them
+        opt['positional'] = [rng.choice(['.', 'tests', 'test_m'])]
+        if rng.random() < 0.4:
+            opt['positional'].append(rng.choice(['test_', '.']))
+        opt['dashdash'] = rng.random() < 0.7
     skew = [rng.choice([0.0, 0.37, -3600.0, 3600.0, 12.5, -0.004]) for _ in range(4)]
     plan = []
     m = W.Model(world)
